@@ -12,9 +12,9 @@ From Slsk Require Import C16.Model C16.Proofs.
 
 (* Login advertises the settings: the burst is exactly what the settings say (F19 repaired), in
    particular the favourite rooms are joined iff auto_join. *)
-Theorem C16_burst_exact : forall s ports shares,
-  login_burst s ports shares = spec_burst s ports shares /\
-  filter is_join (login_burst s ports shares) = (if s_auto_join s then map JoinRoom (s_favorites s) else []).
+Theorem C16_burst_exact : forall s ports shares parent,
+  login_burst s ports shares parent = spec_burst s ports shares parent /\
+  filter is_join (login_burst s ports shares parent) = (if s_auto_join s then map JoinRoom (s_favorites s) else []).
 Proof. intros. split; [apply burst_exact|apply burst_joins]. Qed.
 
 (* Commands are refused without a session - in every state. *)
@@ -65,11 +65,27 @@ Qed.
    stop the watchdog; the watchdog is started on CONNECTED iff auto-reconnect; every cleanup the
    machine relies on exists in the source (regenerated booleans). *)
 Theorem C16_reconnect_reasons :
-  (forall r, keeps_watchdog r = match r with RRequested | REof => false | RRead | RWrite | RTimeout => true end) /\
+  (forall r, keeps_watchdog r = match r with RRequested | REof => false | RRead | RWrite | RTimeout | RConnectFailed | RUnknown => true end) /\
   (forall auto, watchdog_on_connect auto = auto) /\
   stop_cancels_watchdog = true /\ stop_stops_distributed = true /\ closed_resets_users = true /\ closed_resets_rooms = true /\
   closed_stops_tracking = true /\ closed_destroys_session = true /\ state_change_resets_dist = true.
 Proof. repeat split; try reflexivity; intros []; reflexivity. Qed.
+
+(* The watchdog does not give up: a FAILED reconnect attempt (server still down) leaves the connection
+   closed with the watchdog running, and the next period with the server up opens a connection. *)
+Theorem C16_reconnect_persists : forall auto x,
+  conn x = Closed -> watchdog x = true ->
+  let y := fst (step auto x (Tick false)) in
+  conn y = Closed /\ watchdog y = true /\ count OConnect (snd (step auto x (Tick false))) = 1 /\
+  0 < count OConnect (snd (step auto y (Tick true))).
+Proof.
+  intros auto x Hc Hw y.
+  pose proof (allst_ok _ (persists_ok auto) x) as K. cbv beta zeta in K. rewrite Hc, Hw in K. cbn [implb] in K. fold y in K.
+  apply andb_prop in K. destruct K as [K K3]. apply andb_prop in K. destruct K as [K1 K2].
+  destruct (conn y); try discriminate K1. repeat split; try assumption.
+  - now apply Nat.eqb_eq.
+  - now apply Nat.ltb_lt.
+Qed.
 
 (* stop() is final, from EVERY state (also after a loss in the login burst): afterwards the
    connection is not open, no watchdog, no pending potential-parent connect, and NO later event
@@ -90,7 +106,8 @@ Example C16_nonvacuous :
   forallb plain es = true /\ count OSessionInit (snd (run true init es)) = 2 /\ count OSessionDestroyed (snd (run true init es)) = 2 /\
   count OSent (snd (run true init es)) = 2 /\ count OConnect (snd (run true init es)) = 3 /\
   conn (final true [Start true; Login RepOk]) = Connected /\ stopped (final true [Start true; Login RepOk]) = false /\
-  In (JoinRoom 2) (login_burst (mkSettings 6 7 [1] [1] [3] [1; 2] true true true) (6, 7) (3, 4)) /\
+  In (JoinRoom 2) (login_burst (mkSettings 6 7 [1] [1] [3] [1; 2] true true true) (6, 7) (3, 4) None) /\
+  In (BranchLevel 4) (login_burst (mkSettings 6 7 [1] [1] [3] [1; 2] true true true) (6, 7) (3, 4) (Some (3, 5))) /\
   forallb plain [Start true; Login RepOk; LostInTracking RWrite; Tick true] = true /\
   parents (fst (run true init [Start true; Login RepOk; Parents; Lost RRead])) = true /\ watchdog (fst (run true init [Start true; Login RepOk; Parents; Lost RRead])) = true.
-Proof. vm_compute. repeat split; try reflexivity. repeat (first [left; reflexivity | right]). Qed.
+Proof. vm_compute. repeat split; try reflexivity; repeat (first [left; reflexivity | right]). Qed.
